@@ -115,3 +115,30 @@ macro_rules! driver_harness {
 driver_harness!(bounded_drivers_ndarray_view_rev1, -1, 4);
 driver_harness!(bounded_drivers_ndarray_view_step1, 1, 4);
 driver_harness!(bounded_drivers_ndarray_view_rev2, -2, 2);
+
+// ---- C07 / C10, bounded: a caller-supplied ndarray OUT buffer that is a strided view (every second slot of a 6-slot parent): the
+// results land in the logical elements of the view, every one of them is written, and nothing outside the view is touched
+#[kani::proof]
+#[kani::unwind(9)]
+fn bounded_out_buffer_ndarray_strided() {
+    use std::mem::MaybeUninit;
+    let a: [i32; 3] = [kani::any(), kani::any(), kani::any()];
+    let v: Vec<i32> = a.to_vec();
+    let w: usize = kani::any();
+    kani::assume(1 <= w && w <= 3);
+    let mut parent: Array1<MaybeUninit<i64>> = Array1::from_vec(vec![MaybeUninit::new(-7i64); 6]);
+    {
+        let view = parent.slice_mut(s![..;2]);
+        let none: Option<Array1<i64>> = v.rolling_apply(w, |rm, x| x as i64 * 2 + rm.map_or(0, |r| r as i64), Some(view));
+        assert!(none.is_none());
+    }
+    let got: Vec<i64> = parent.iter().map(|m| unsafe { m.assume_init() }).collect();
+    let mut i = 0;
+    while i < 3 {
+        let st = expected_start(i, w, 3);
+        let want = a[i] as i64 * 2 + st.map_or(0, |s| a[s] as i64);
+        assert!(got[2 * i] == want);
+        assert!(got[2 * i + 1] == -7);
+        i += 1;
+    }
+}
